@@ -243,7 +243,7 @@ impl World {
 			},
 		};
 		self.out.bump("oracle:C02-3 forwarding admission arithmetic");
-		if p.policy_violating && p.underpaid_hop.map(|k| k == i).unwrap_or(true) {
+		if p.policy_violating && self.nodes[from].policy_hist.is_empty() && p.underpaid_hop.map(|k| k == i).unwrap_or(true) {
 			self.violate(
 				"C02",
 				"C02-3 HTLC underpaying the advertised fee or CLTV delta was forwarded",
@@ -267,6 +267,29 @@ impl World {
 			},
 		};
 		let c = self.nodes[from].cfg.clone();
+		if !self.nodes[from].policy_hist.is_empty() {
+			// the node changed its policy during the run: an HTLC may be forwarded under the current
+			// policy or (for a while, and after a restart from an older ChannelManager) an earlier
+			// one, but always under one policy as a whole
+			let mut pols = self.nodes[from].policy_hist.clone();
+			pols.push((c.fee_base_msat, c.fee_prop_millionths, c.cltv_delta));
+			self.out.bump("oracle:C02-3 forward satisfies one whole policy");
+			let ok = pols.iter().any(|(b, p, d)| {
+				amt_up >= add.amount_msat + *b as u64 + add.amount_msat * *p as u64 / 1_000_000
+					&& cltv_up >= add.cltv_expiry + *d as u32
+			});
+			if !ok {
+				self.violate(
+					"C02",
+					"C02-3 forwarded HTLC satisfies none of the node's forwarding policies as a whole",
+					format!(
+						"node {} pay {}: in {} msat expiry {}, out {} msat expiry {}; policies (base, ppm, delta) advertised so far: {:?}",
+						from, pi, amt_up, cltv_up, add.amount_msat, add.cltv_expiry, pols
+					),
+				);
+			}
+			return;
+		}
 		let need_fee = c.fee_base_msat as u64 + add.amount_msat * c.fee_prop_millionths as u64 / 1_000_000;
 		if amt_up < add.amount_msat + need_fee {
 			self.violate(
